@@ -249,6 +249,7 @@ impl Checker {
             watch::tick();
             if data.len() <= 4096 {
                 watch::set_input(fmt.name(), &format!("{:?}", chunking), data);
+                watch::set_case(fmt.name(), alpha.name(), chunking.to_json().to_string());
             }
             let run = run_reader(fmt, alpha, data, chunking.policy(), &plan);
             rep.eval_distinct(nontrivial);
